@@ -19,12 +19,12 @@ CLAIMED["C12"] = {
   "technique": "MIR call inventory + dispatch-table evaluation per enum variant + control dependence (custom rustc driver)",
 }
 CLAIMED["C16"] = {
-  "text": "Decides the structural clauses of C16 for all programs / all paths: shared-buffer types implement no mutable-view trait and 18 compile-fail witnesses (with compiling twins) show safe code cannot mutate or forge them; *const->*mut conversions occur only at 3 audited sites; Buffer->mutable conversions obtain the Bytes only through Arc::try_unwrap/get_mut with no back door; 7 in-place kernels reach only those conversions; for the 3 C-Data-Interface structs every Box/CString handed out by into_raw is reclaimed by the release callback, which clears `release`, and from_raw moves out with ptr::replace; no mem::forget strands an owning field (analysed with feature `pool` on; found and fixed the into_vec reservation leak).",
+  "text": "Decides the structural clauses of C16 for all programs / all paths: shared-buffer types implement no mutable-view trait and 18 compile-fail witnesses (with compiling twins) show safe code cannot mutate or forge them; *const->*mut conversions occur only at 3 audited sites; Buffer->mutable conversions obtain the Bytes only through Arc::try_unwrap/get_mut with no back door; 7 in-place kernels reach only those conversions; for the 3 C-Data-Interface structs every Box/CString handed out by into_raw is reclaimed by the release callback, which clears `release`, and from_raw moves out with ptr::replace; every raw-pointer field of the FFI private data is reclaimed on release; the 10 unsafe Send/Sync impls are the audited ones with their where-clauses; no mem::forget strands an owning field and the shared pool counter is only updated with atomic read-modify-write operations (both analysed with feature `pool` on; found and fixed the into_vec reservation leak).",
   "note": "Does not decide thread interleavings nor logical equality of imported arrays. The pool/ffi configuration is analysed in addition to the baseline one. Trusts rustc (type checker, MIR) and the exemption tables in rules/c16.py.",
   "technique": "compile-fail witnesses + impl/ADT facts + MIR pairing and field-taken-before-forget analysis",
 }
 CLAIMED["C09"] = {
-  "text": "Decides structural clauses of C09 exhaustively over the DataType enum as defined in the source: for each of the 41 constructors the `match self.data_type` dispatch of ArrayData::validate/validate_child_data/validate_nulls/validate_values is evaluated and every obligation the Arrow format assigns to that layout must be discharged by a reachable validator instantiated at the right offset/key/run-end type (found and fixed the missing Union validation); in 20 checked constructors each of 46 stored operands that is validated on the reference tree must still flow into a branch on which a rejecting exit is control dependent; len+offset goes through the overflow-checked helper; every unchecked/FFI entry point (84) is `unsafe fn`; representations are private (26 types) and 18 compile-fail witnesses hold.",
+  "text": "Decides structural clauses of C09 exhaustively over the DataType enum as defined in the source: for each of the 41 constructors the `match self.data_type` dispatch of ArrayData::validate/validate_child_data/validate_nulls/validate_values is evaluated and every obligation the Arrow format assigns to that layout must be discharged by a reachable validator instantiated at the right offset/key/run-end type (found and fixed the missing Union validation); in 20 checked constructors each of 46 stored operands that is validated on the reference tree must still flow into a branch on which a rejecting exit is control dependent, and the number of validations every successful path must pass does not drop below the reference; try_new/build/validate_data/validate_full chain to each other on every Ok path and recurse into children; len+offset goes through the overflow-checked helper; every unchecked/FFI entry point (84) is `unsafe fn`; representations are private (26 types) and 18 compile-fail witnesses hold.",
   "note": "Does not decide the arithmetic inside each validator (e.g. < vs <=) nor partial weakening of a check that still depends on the operand. The checked-operand reference table (rules/tables/c09_checked_operands.json) was generated from the reference tree and reviewed. Trusts rustc MIR.",
   "technique": "dispatch-table evaluation per enum constructor + taint-to-rejecting-branch on MIR + API facts + compile-fail witnesses",
 }
@@ -34,7 +34,7 @@ CLAIMED["C10"] = {
   "technique": "type-resolved call inventory + three-valued evaluation of dispatch tables per enum constructor",
 }
 CLAIMED["C13"] = {
-  "text": "Decides the first clause of C13 on the full grid: both giant `match (from, to)` tables are evaluated for all 41x41 ordered pairs of DataType constructors (helper predicates evaluated on their own bodies, payload guards unknown); every pair for which can_cast_types is definitely true (542 today) reaches an implementation arm of cast_with_options rather than the unsupported-error arm. The suite samples a fixed list of arrays; this is the whole matrix.",
+  "text": "Decides the first clause of C13 on the full grid: both giant `match (from, to)` tables are evaluated for all ordered pairs of the 41 DataType constructors refined by TimeUnit/IntervalUnit (55 types, ~2800 pairs; helper predicates evaluated on their own bodies, other payload guards unknown); every pair for which can_cast_types is definitely true (898 today) reaches an implementation arm of cast_with_options rather than the unsupported-error arm. The suite samples a fixed list of arrays; this is the whole matrix - the refinement found two genuine disagreements (Interval->Int64, invalid Time32/Time64 units), both fixed.",
   "note": "Only the support inclusion: value preservation, strict/safe duality, text and datatype-display round trips are value-level and not decided; pairs whose castability depends on payloads (nested/dictionary children) are reported as unknown, not judged.",
   "technique": "three-valued evaluation of two dispatch tables over the constructor grid (MIR, custom rustc driver)",
 }
@@ -49,12 +49,12 @@ CLAIMED["C07"] = {
   "technique": "control-dependence and must-pass-through on MIR, field-effect sets, sibling agreement",
 }
 CLAIMED["C14"] = {
-  "text": "Decides necessary conditions of chunk independence on the decoder state machines: the emitting method of each push decoder re-initialises every accumulation field (8 reset methods, field sets computed from MIR writes incl. &mut borrows); zero-copy fast paths of the IPC stream decoder are control dependent on the internal buffer being empty; after every completed IPC message the next state is stored before Ok can be returned; the CSV header-validation flag is cleared only after validation succeeded; finish/flush of CSV, JSON and IPC reject on the partial-record state.",
+  "text": "Decides necessary conditions of chunk independence on the decoder state machines: the emitting method of each push decoder re-initialises every accumulation field (8 reset methods, field sets computed from MIR writes incl. &mut borrows); zero-copy fast paths of the IPC stream decoder are control dependent on the internal buffer being empty; after every completed IPC message the next state is stored before Ok can be returned; the CSV header-validation flag is cleared only after validation succeeded; finish/flush of CSV, JSON and IPC reject on the partial-record state; the resumable Avro varint decoder writes its carried state fields together and completes a value only after reading them.",
   "note": "Chunk independence itself is a relation over all chunkings and is not decided; only state-reset / guard / ordering conditions whose violation makes the outcome depend on where a chunk boundary falls.",
   "technique": "field-effect analysis (EFF) + control dependence + must-pass-through on MIR",
 }
 CLAIMED["C08"] = {
-  "text": "Decides structural clauses of C08 over all call sites of the decoders: every unchecked construction in the IPC array decoder is control dependent on (or parameterised by) UnsafeFlag::get(), and the skip-validation switches are `unsafe fn`; across all decoders of untrusted input (IPC, Flight, Parquet, JSON, Avro, CSV, Variant) unsafe unchecked constructors are called only from 27 audited (function, constructor) pairs; no size decoded from the wire reaches an allocation without min()/a bounded helper/a preceding validating call (found and fixed the thrift list preallocation and the IPC footer allocation; the Parquet page-header allocation is a recorded finding with a 25-byte demo); the CSV decoder checks field boundaries (found and fixed); Variant try_new constructors return Ok only through full validation.",
+  "text": "Decides structural clauses of C08 over all call sites of the decoders: every unchecked construction in the IPC array decoder is control dependent on (or parameterised by) UnsafeFlag::get(), and the skip-validation switches are `unsafe fn`; across all decoders of untrusted input (IPC, Flight, Parquet, JSON, Avro, CSV, Variant) unsafe unchecked constructors are called only from 27 audited (function, constructor) pairs; no size decoded from the wire reaches an allocation without min()/a bounded helper/a preceding validating call (found and fixed the thrift list preallocation and the IPC footer allocation; the Parquet page-header allocation is a recorded finding with a 25-byte demo); the CSV decoder checks field boundaries (found and fixed); Variant try_new constructors return Ok only through full validation; Parquet string decoders whose UTF-8 validation is keyed on the file's annotation instead of the Arrow type being built are reported (3 recorded findings with a demo).",
   "note": "Does not decide absence of slice-index panics or unbounded loops in general, nor the arithmetic of the validators named in the inventory. The inventory table carries one reason per entry and is the reference for later changes.",
   "technique": "control dependence + backward slices from allocation sites to wire-integer sources + audited call inventory (MIR, custom rustc driver)",
 }
